@@ -281,7 +281,10 @@ def datetime_get(string):
         return default_values("datetime")
 
     if isinstance(string, dt.datetime):
-        return dt.datetime.strptime(string.strftime(FORMAT_DATETIME), FORMAT_DATETIME)
+        # strftime does not zero pad years below 1000 on every platform,
+        # strptime would then refuse the text of a stored value.
+        return dt.datetime(string.year, string.month, string.day,
+                           string.hour, string.minute, string.second)
 
     return dt.datetime.strptime(string, FORMAT_DATETIME)
 
